@@ -6,6 +6,8 @@ import Fir.Model.ProtoAlpha
 import Fir.Model.ProtoConvert
 import Fir.Model.ProtoView
 import Fir.Model.ProtoGeom
+import Fir.Model.ProtoThreads
+import Fir.Model.ProtoColor
 open Fir
 
 def handleLine (line : String) : String :=
@@ -26,6 +28,11 @@ def handleLine (line : String) : String :=
     | "cropctor" => handleCropCtor fs
     | "cropf64" => handleCropF64 fs
     | "ctor" => handleCtor fs
+    | "maxparts" => handleMaxParts fs
+    | "threads" => handleThreads fs
+    | "ctable" => handleCTable fs
+    | "cmap" => handleCMap fs
+    | "cmap-reject" => handleCMapReject fs
     | "ping" => "OK pong"
     | _ => "BAD-REQUEST unknown command " ++ cmd
 
